@@ -138,8 +138,10 @@ pub fn unit_alphabet(hi_fracs: &[u64], gaps: &[i32], lo_fracs: &[u64], both_sign
 }
 
 pub fn plan(quick: bool) -> PairPlan {
-    let pos: Vec<u32> = vec![1, 2, 26, 51];
-    let mut hf: Vec<u64> = if quick { run_bounded_at(52, 2, &pos) } else { run_bounded(52, 2) };
+    // quick: R_2 at 4 boundary positions; thorough: R_2 at 14 positions (about 3e8 / 3e10 pair transitions)
+    let pos_q: Vec<u32> = vec![1, 2, 26, 51];
+    let pos_t: Vec<u32> = vec![1, 2, 3, 4, 8, 16, 26, 27, 32, 44, 48, 49, 50, 51];
+    let mut hf: Vec<u64> = run_bounded_at(52, 2, if quick { &pos_q } else { &pos_t });
     hf.extend(gen_fracs(if quick { 2 } else { 4 }));
     hf.extend(weyl_fracs(if quick { 2 } else { 8 }, 3));
     let gaps: Vec<i32> = if quick { vec![0, 1, 2, 10, 52, 53, 54] } else { vec![0, 1, 2, 3, 10, 30, 52, 53, 54, 106, 200, 900] };
@@ -147,13 +149,11 @@ pub fn plan(quick: bool) -> PairPlan {
     lf.extend(gen_fracs(1));
     if !quick {
         lf.push(1);
-        lf.push((1u64 << 52) - 2);
-        lf.extend(weyl_fracs(2, 4));
     }
     let ua = unit_alphabet(&hf, &gaps, &lf, !quick);
     let ub = unit_alphabet(&hf, &gaps, &lf, true);
     PairPlan {
-        ua,
+        ua: if quick { ua } else { ua.into_iter().step_by(2).collect() },
         ub,
         e0s: if quick { vec![-1000, 0, 890] } else { vec![-1000, -999, -500, -1, 0, 1, 500, 889, 890] },
         deltas: if quick { dense_deltas(56, &[60, 64, 100, 105, 106, 107, 108, 109, 110, 150, 500, 1000, 1990]) } else { dense_deltas(110, &[150, 500, 1000, 1990]) },
